@@ -1,4 +1,5 @@
 import PkLA.Ridge
+import PkLA.EdmdConsistent
 import Mathlib.LinearAlgebra.Matrix.NonsingularInverse
 import Pk.Gram
 /-! # C06 — EDMD returns the regularised least-squares optimum; exact recovery
@@ -112,5 +113,36 @@ theorem C06_driver_certificate (α : Rat) (Psi Theta U : Pk.Gram.RMat) (h : Pk.G
   · split at h
     · rename_i hc; cases h; exact hc
     · cases h
+
+/-! ### every data set: the normal equations are always solvable and `lstsq` solves them -/
+
+/-- the normal equations of the regularised problem have a solution for EVERY data set and every `α ≥ 0` - also for
+rank-deficient `Ψ` with `α = 0` (explicitly `Θ Z diag(σ/(σ²+α)) Qᵀ` for an SVD `Ψ = Q diag(σ) Zᵀ`) -/
+theorem C06_normal_eq_solvable [DecidableEq q] (Ψ : Matrix p q ℝ) (Θ : Matrix t q ℝ) (α : ℝ) (hα : 0 ≤ α) :
+    ∃ U : Matrix t p ℝ, U * (Ψ * Ψᵀ + α • (1 : Matrix p p ℝ)) = Θ * Ψᵀ :=
+  normal_eq_consistent Ψ Θ α hα
+
+/-- a least-squares solution of a CONSISTENT system solves it exactly … -/
+theorem C06_lstsq_exact {a b c : Type} [Fintype a] [Fintype b] [Fintype c]
+    (A : Matrix a b ℝ) (B : Matrix a c ℝ) (X : Matrix b c ℝ)
+    (hc : ∃ X0 : Matrix b c ℝ, A * X0 = B) (hX : Aᵀ * (A * X - B) = 0) : A * X = B :=
+  lstsq_exact_of_consistent A B X hc hX
+
+/-- … and every minimiser of `‖A X − B‖_F` satisfies those least-squares normal equations -/
+theorem C06_lstsq_normal {a b c : Type} [Fintype a] [Fintype b] [Fintype c]
+    (A : Matrix a b ℝ) (B : Matrix a c ℝ) (X : Matrix b c ℝ)
+    (hmin : ∀ Y : Matrix b c ℝ, fro2 (A * X - B) ≤ fro2 (A * Y - B)) : Aᵀ * (A * X - B) = 0 :=
+  lstsq_normal_of_min A B X hmin
+
+/-- **`Edmd._fit_regressor` in the code's own variables**: whatever least-squares solution `Xs` of `Hᵀ X = Gᵀ`
+(`H = (ΨΨᵀ + αI)/q`, `G = ΘΨᵀ/q`) `scipy.linalg.lstsq` returns, its transpose satisfies the normal equations and
+minimises the documented cost - for every data set, rank-deficient ones included, every `α ≥ 0`, every `q ≥ 1` -/
+theorem C06_edmd_lstsq_optimal [DecidableEq q] (Ψ : Matrix p q ℝ) (Θ : Matrix t q ℝ) (α : ℝ) (hα : 0 ≤ α)
+    (n : ℕ) (hn : n ≠ 0) (Xs : Matrix p t ℝ)
+    (hXs : ((n : ℝ)⁻¹ • (Ψ * Ψᵀ + α • (1 : Matrix p p ℝ)))
+        * (((n : ℝ)⁻¹ • (Ψ * Ψᵀ + α • (1 : Matrix p p ℝ)))ᵀ * Xs - ((n : ℝ)⁻¹ • (Θ * Ψᵀ))ᵀ) = 0) :
+    Xsᵀ * (Ψ * Ψᵀ + α • (1 : Matrix p p ℝ)) = Θ * Ψᵀ
+      ∧ ∀ V : Matrix t p ℝ, cost Ψ Θ α Xsᵀ ≤ cost Ψ Θ α V :=
+  edmd_lstsq_optimal_nat Ψ Θ α hα n hn Xs hXs
 
 end Pk.C06
